@@ -26,10 +26,12 @@ PrepTpBig    == {S \in SUBSET Peers : Cardinality(S) >= Cardinality(Peers) - 1}
 \* randomsub: the first k peers subscribed, k around RandomSubD
 PrepTpPrefix == {{PeerSeq[i] : i \in 1..k} : k \in {3, 6, 7, 8, 9} \cap (1..Len(PeerSeq))}
 AlphaAll     == {"peer", "sub", "graft", "score", "direct", "idontwant", "down", "subscribe", "hb", "publish", "local", "msg"}
+AlphaSim     == AlphaAll \cup {"batch", "batchlocal"}
 AlphaMsg     == {"publish", "local", "msg"}
 AlphaFanout  == {"sub", "score", "down", "direct", "hb", "publish"}
 AlphaFlood   == {"score", "direct", "sub", "publish"}
 AlphaDirect  == {"direct", "score", "graft", "idontwant", "publish", "msg"}
+AlphaBatch   == {"batch", "batchlocal"}
 AlphaPlain   == {"peer", "sub", "down", "subscribe", "publish", "local", "msg"}
 BoolBoth == BOOLEAN
 OnlyTrue == {TRUE}
@@ -61,8 +63,10 @@ GenStep ==
     \/ A("score") /\ \E p \in Peers, v \in ScoreVals : SetScore(p, v)
     \/ A("subscribe") /\ Subscribe
     \/ A("hb") /\ Heartbeat
-    \/ A("publish") /\ Publish(FALSE)
-    \/ A("local") /\ Publish(TRUE)
+    \/ A("publish") /\ Publish(FALSE, FALSE)
+    \/ A("local") /\ Publish(TRUE, FALSE)
+    \/ A("batch") /\ Publish(FALSE, TRUE)
+    \/ A("batchlocal") /\ Publish(TRUE, TRUE)
     \/ A("msg") /\ \E s \in Peers, a \in Peers \cup {Outsider} : Forward(s, a)
 
 Done    == nmsg = MaxMsgs \/ ndyn >= MaxDyn
